@@ -29,6 +29,7 @@ import SSEPyVerif.Proofs.Schemes.Pi2LevComplete
 import SSEPyVerif.Proofs.Schemes.DP17Room
 import SSEPyVerif.Proofs.Schemes.DP17Complete
 import SSEPyVerif.Proofs.Schemes.SSE2Complete
+import SSEPyVerif.Proofs.Schemes.SSE1Complete
 namespace SSEPy.C01
 open SSEPy.Sch SSEPy.Sch.Chain
 
@@ -488,5 +489,18 @@ theorem SSE2.correct (raw : RawCfg) (cfg : SSE2Cfg) (hcfg : SSE2.cfgBuild raw = 
   obtain ⟨tk, htk, _⟩ := SSE2.token_ok cfg lv hl.hmac_len hu K1 w hK (hvalid _ hm).2.1 hn
   exact ⟨tk, htk, SSE2.search_stored_valid cfg lv hl (by have := hu.lpos; omega) hu.bits K1 db I hI hkeys
     (fun p hp => (hvalid p hp).1) hcap' w ids hm (hvalid _ hm).2.2 tk htk⟩
+
+/-- SSE-1: `EDBSetup` NEVER RAISES — accepted configuration whose array size `param_s` is a power of two (at least 4), four
+    keys of `param_k` bytes, keywords of at most `param_l` bytes, no empty list and fewer than `param_s` postings: the only
+    failure left in the model is `.miss` (exhausted recorded randomness).  Excluded by proof: a counter that does not fit
+    `log2 s` bits (ValueError), an address beyond the array (IndexError — ψ permutes exactly the `s` cells), a mask longer
+    than `address ‖ key` (IndexError), a refusal by the PRF, the PRPs or the cipher.  For a `param_s` that is not a power of
+    two the code itself raises (DESIGN.md 11.3) and the theorem does not apply. -/
+theorem SSE1.setup_never_raises (raw : RawCfg) (cfg : SSE1Cfg) (hcfg : SSE1.cfgBuild raw = .ok cfg) (lv : Leaves)
+    (hl : LeafLaws lv) (h2 : 2 ≤ cfg.log2s) (hs : cfg.s.toNat = 2 ^ cfg.log2s) (K1 K2 K3 K4 : Bytes)
+    (h1 : (K1.length : Int) = cfg.k) (hk2 : (K2.length : Int) = cfg.k) (h3 : (K3.length : Int) = cfg.k)
+    (db : DB) (t : Tape) (hdb : ∀ p ∈ db, (p.1.length : Int) ≤ cfg.l ∧ p.2 ≠ []) (hN : db.total < cfg.s.toNat)
+    (e : Err) (h : SSE1.setup cfg lv [K1, K2, K3, K4] db t = .error e) : e = .miss :=
+  SSE1.setup_onlyMiss cfg lv hl (SSE1.cfgBuild_usable cfg raw hcfg) h2 K1 K2 K3 K4 h1 hk2 h3 db t hs hdb hN e h
 
 end SSEPy.C01
